@@ -33,8 +33,8 @@ Theorem C02_aesgcm_accepts_exactly :
       exists iv, length iv = 12%nat /\ aesgcm_enc seal (output_prefix v id) key iv p ad = Ok c.
 Proof.
   intros seal open_ [HL [HO HU]] v id key c ad p. unfold aesgcm_dec. rewrite dec_lenfirst_canon.
-  apply (na_accept_iff seal open_ 12 16 gcm_seal_max None gcm_tink_max _ key c ad p HL HO HU);
-    [intros m; discriminate | exact gcm_max_order].
+  apply (na_accept_iff seal open_ 12 16 gcm_seal_max None None gcm_tink_max _ key c ad p HL HO HU);
+    [intros m; discriminate | intros m; discriminate | exact gcm_max_order].
 Qed.
 Print Assumptions C02_aesgcm_accepts_exactly.
 
@@ -48,13 +48,13 @@ Theorem C02_chacha20poly1305_accepts_exactly :
 Proof.
   intros seal open_ [HL [HO HU]] v id key c ad p. split.
   - unfold chacha_dec. rewrite dec_prefixfirst_canon.
-    apply (na_accept_iff seal open_ 12 16 chacha_seal_max (Some chacha_open_max) _ _ key c ad p HL HO HU);
-      [intros m E; inversion E; reflexivity|].
-    pose proof (output_prefix_length v id). unfold chacha_tink_max, chacha_seal_max, MaxInt, lenN. destruct v; lia.
+    apply (na_accept_iff seal open_ 12 16 chacha_seal_max (Some chacha_open_max) (Some chacha_tink_ct_max) _ _ key c ad p HL HO HU);
+      [intros m E; inversion E; reflexivity | intros m E; inversion E; vm_compute; discriminate |].
+    pose proof (output_prefix_length v id). unfold chacha_tink_max, chacha_tink_seal_max, chacha_seal_max, MaxInt, lenN. destruct v; lia.
   - unfold chacha_subtle_dec. rewrite dec_lenfirst_canon.
-    apply (na_accept_iff seal open_ 12 16 chacha_seal_max (Some chacha_open_max) _ _ key c ad p HL HO HU);
-      [intros m E; inversion E; reflexivity|].
-    unfold chacha_subtle_tink_max, chacha_seal_max, MaxInt. lia.
+    apply (na_accept_iff seal open_ 12 16 chacha_seal_max (Some chacha_open_max) (Some chacha_tink_ct_max) _ _ key c ad p HL HO HU);
+      [intros m E; inversion E; reflexivity | intros m E; inversion E; vm_compute; discriminate |].
+    unfold chacha_subtle_tink_max, chacha_tink_seal_max, chacha_seal_max, MaxInt. lia.
 Qed.
 Print Assumptions C02_chacha20poly1305_accepts_exactly.
 
@@ -67,14 +67,14 @@ Theorem C02_xchacha20poly1305_accepts_exactly :
        exists iv, length iv = 24%nat /\ xchacha_enc seal [] key iv p ad = Ok c).
 Proof.
   intros seal open_ [HL [HO HU]] v id key c ad p Hc.
-  assert (Hm : chacha_seal_max <= xchacha_tink_max) by (unfold xchacha_tink_max, chacha_seal_max, MaxInt; lia).
+  assert (Hm : chacha_seal_max <= xchacha_tink_max) by (unfold xchacha_tink_max, chacha_tink_seal_max, chacha_seal_max, MaxInt; lia).
   split.
   - unfold xchacha_dec. rewrite dec_lenprefix_canon by exact Hc.
-    apply (na_accept_iff seal open_ 24 16 chacha_seal_max (Some chacha_open_max) _ _ key c ad p HL HO HU);
-      [intros m E; inversion E; reflexivity | exact Hm].
+    apply (na_accept_iff seal open_ 24 16 chacha_seal_max (Some chacha_open_max) (Some chacha_tink_ct_max) _ _ key c ad p HL HO HU);
+      [intros m E; inversion E; reflexivity | intros m E; inversion E; vm_compute; discriminate | exact Hm].
   - unfold xchacha_subtle_dec. rewrite dec_lenfirst_canon.
-    apply (na_accept_iff seal open_ 24 16 chacha_seal_max (Some chacha_open_max) _ _ key c ad p HL HO HU);
-      [intros m E; inversion E; reflexivity | exact Hm].
+    apply (na_accept_iff seal open_ 24 16 chacha_seal_max (Some chacha_open_max) (Some chacha_tink_ct_max) _ _ key c ad p HL HO HU);
+      [intros m E; inversion E; reflexivity | intros m E; inversion E; vm_compute; discriminate | exact Hm].
 Qed.
 Print Assumptions C02_xchacha20poly1305_accepts_exactly.
 
@@ -238,52 +238,50 @@ Proof.
 Qed.
 Print Assumptions C02_decrypt_never_panics.
 
-(* ChaCha20-Poly1305 / XChaCha20-Poly1305: Decrypt panics EXACTLY when the prefix
-   matches and the part after prefix and nonce is longer than 2^38-48 bytes —
-   x/crypto's Open panics there and Tink does not check the size first.
-   (Concrete reproduction against the implementation: 256 GiB ciphertext,
-   harness kind "huge".)  Below that size Decrypt never panics. *)
-Theorem C02_chacha_decrypt_panics_exactly :
-  forall (open_ : aead_open) prefix key c ad,
-    (chacha_dec open_ prefix key c ad = Panic <->
-       firstn (length prefix) c = prefix /\ 2 ^ 38 - 48 < lenN c - lenN prefix - 12) /\
-    (lenN c <= MaxInt ->
-     (xchacha_dec open_ prefix key c ad = Panic <->
-       firstn (length prefix) c = prefix /\ 2 ^ 38 - 48 < lenN c - lenN prefix - 24)).
-Proof.
-  intros open_ prefix key c ad. split; [|intros Hc].
-  - unfold chacha_dec. rewrite dec_prefixfirst_canon, na_dec_panic_iff. unfold lenN, chacha_open_max. split.
-    + intros [m [E [H1 [H2 H3]]]]. inversion E; subst m. split; [exact H2|lia].
-    + intros [H1 H2]. exists (2 ^ 38 - 48). repeat split; auto; lia.
-  - unfold xchacha_dec. rewrite dec_lenprefix_canon by exact Hc. rewrite na_dec_panic_iff.
-    unfold lenN, chacha_open_max. split.
-    + intros [m [E [H1 [H2 H3]]]]. inversion E; subst m. split; [exact H2|lia].
-    + intros [H1 H2]. exists (2 ^ 38 - 48). repeat split; auto; lia.
-Qed.
-Print Assumptions C02_chacha_decrypt_panics_exactly.
-
-Theorem C02_chacha_decrypt_no_panic_below_256GiB :
-  forall (open_ : aead_open) prefix key c ad, lenN c <= 2 ^ 38 - 48 ->
+(* ChaCha20-Poly1305 / XChaCha20-Poly1305 (key-based and subtle): Decrypt never panics.
+   x/crypto's Open panics above 2^38-48 bytes; Tink checks that size right before
+   Open and returns an error (internalaead.CheckChaCha20Poly1305CiphertextSize;
+   added after this check found the panic with a 256 GiB ciphertext, harness kind "huge"). *)
+Theorem C02_chacha_decrypt_never_panics :
+  forall (open_ : aead_open) prefix key c ad, lenN c <= MaxInt ->
     chacha_dec open_ prefix key c ad <> Panic /\ xchacha_dec open_ prefix key c ad <> Panic /\
     chacha_subtle_dec open_ key c ad <> Panic /\ xchacha_subtle_dec open_ key c ad <> Panic.
 Proof.
-  intros open_ prefix key c ad Hc.
-  assert (Hm : lenN c <= MaxInt) by (unfold MaxInt; lia).
-  assert (Hn : forall m, Some chacha_open_max = Some m -> lenN c <= m)
-    by (intros m E; inversion E; unfold chacha_open_max; lia).
+  intros open_ prefix key c ad Hm.
+  assert (Hn : forall m, Some chacha_open_max = Some m ->
+               lenN c <= m \/ exists m', Some chacha_tink_ct_max = Some m' /\ m' <= m).
+  { intros m E; inversion E. right. exists chacha_tink_ct_max. split; [reflexivity|]. vm_compute. discriminate. }
   repeat split.
   - unfold chacha_dec. rewrite dec_prefixfirst_canon. apply na_dec_no_panic. exact Hn.
   - unfold xchacha_dec. rewrite dec_lenprefix_canon by exact Hm. apply na_dec_no_panic. exact Hn.
   - unfold chacha_subtle_dec. rewrite dec_lenfirst_canon. apply na_dec_no_panic. exact Hn.
   - unfold xchacha_subtle_dec. rewrite dec_lenfirst_canon. apply na_dec_no_panic. exact Hn.
 Qed.
-Print Assumptions C02_chacha_decrypt_no_panic_below_256GiB.
+Print Assumptions C02_chacha_decrypt_never_panics.
 
-(* Encrypt: AES-CTR-HMAC and AES-GCM-SIV never panic; AES-GCM panics exactly for a
-   plaintext of 2^36-31 bytes (Tink's bound is RFC 5116's P_MAX, crypto/cipher's
-   Seal panics above 2^36-32); XAES-256-GCM has no GCM bound at all and panics
-   for every plaintext above 2^36-32 bytes; (X)ChaCha20-Poly1305 above 2^38-64. *)
-Theorem C02_encrypt_panics_exactly :
+(* ... and a ciphertext whose part after prefix and nonce exceeds 2^38-48 bytes is an error
+   (the length-only prediction the correspondence uses for the 256 GiB cases) *)
+Theorem C02_chacha_oversize_rejected :
+  forall (open_ : aead_open) prefix key c ad,
+    2 ^ 38 - 48 < lenN c - lenN prefix - 12 -> chacha_dec open_ prefix key c ad = Err.
+Proof.
+  intros open_ prefix key c ad H. unfold chacha_dec. rewrite dec_prefixfirst_canon.
+  destruct (beq (firstn (length prefix) c) prefix) eqn:Eb.
+  - apply na_dec_len_only_err. rewrite Eb. unfold na_dec_len_only, lenN, chacha_tink_ct_max in *. cbn [negb orb].
+    destruct (N.ltb_spec (N.of_nat (length c)) (N.of_nat (length prefix + 12 + 16))); [reflexivity|].
+    destruct (N.ltb_spec (2 ^ 38 - 48) (N.of_nat (length c) - N.of_nat (length prefix) - N.of_nat 12)); [reflexivity|lia].
+  - apply na_wrong_prefix. intros E. rewrite E, beq_refl in Eb. discriminate.
+Qed.
+Print Assumptions C02_chacha_oversize_rejected.
+
+(* Encrypt: AES-CTR-HMAC, AES-GCM-SIV and (X)ChaCha20-Poly1305 never panic.
+   REFUTED for AES-GCM and XAES-256-GCM ("no input makes Encrypt panic" fails in
+   the model, at sizes that cannot be allocated in the test environment):
+   aesgcm.Encrypt panics exactly for a plaintext of 2^36-31 bytes (Tink's bound
+   CheckAESGCMPlaintextSize is RFC 5116's P_MAX = 2^36-31, crypto/cipher's Seal
+   panics above (2^32-2)*16 = 2^36-32); xaesgcm.Encrypt has no GCM bound at all
+   and panics for every plaintext above 2^36-32 bytes. *)
+Theorem C02_encrypt_panics_exactly_refuted :
   forall (aes hmac : bytes -> bytes -> bytes) (seal : aead_seal) (hlen : nat),
     (forall k b, length (aes k b) = 16%nat) -> (forall k m, length (hmac k m) = hlen) ->
     forall v id key iv p ad,
@@ -293,8 +291,8 @@ Theorem C02_encrypt_panics_exactly :
       (aesgcm_enc seal prefix key iv p ad = Panic <-> lenN p = 2 ^ 36 - 31) /\
       (forall ss, length iv = (ss + 12)%nat -> (ss <= 12)%nat ->
          (xaes_enc aes seal ss prefix key iv p ad = Panic <-> 2 ^ 36 - 32 < lenN p <= MaxInt - 28 - N.of_nat ss - lenN prefix)) /\
-      (chacha_enc seal prefix key iv p ad = Panic <-> 2 ^ 38 - 64 < lenN p <= MaxInt - lenN prefix - 28) /\
-      (xchacha_enc seal prefix key iv p ad = Panic <-> 2 ^ 38 - 64 < lenN p <= MaxInt - 40).
+      chacha_enc seal prefix key iv p ad <> Panic /\ chacha_subtle_enc seal key iv p ad <> Panic /\
+      xchacha_enc seal prefix key iv p ad <> Panic.
 Proof.
   intros aes hmac seal hlen HA HH v id key iv p ad prefix.
   assert (Hpl : lenN prefix <= 5).
@@ -309,11 +307,32 @@ Proof.
     unfold xaes_tink_max. rewrite gcm_seal_max_val. unfold MaxInt in *. lia. }
   split.
   { unfold chacha_enc. rewrite (na_enc_panic_iff seal (fun _ _ _ _ => None)).
-    unfold chacha_tink_max, chacha_seal_max, MaxInt. lia. }
+    unfold chacha_tink_max, chacha_tink_seal_max, chacha_seal_max, MaxInt. lia. }
+  split.
+  { unfold chacha_subtle_enc. rewrite (na_enc_panic_iff seal (fun _ _ _ _ => None)).
+    unfold chacha_subtle_tink_max, chacha_tink_seal_max, chacha_seal_max, MaxInt. lia. }
   unfold xchacha_enc. rewrite (na_enc_panic_iff seal (fun _ _ _ _ => None)).
-  unfold xchacha_tink_max, chacha_seal_max, MaxInt. lia.
+  unfold xchacha_tink_max, chacha_tink_seal_max, chacha_seal_max, MaxInt. lia.
 Qed.
-Print Assumptions C02_encrypt_panics_exactly.
+Print Assumptions C02_encrypt_panics_exactly_refuted.
+
+(* witnesses: inputs on which the model of aesgcm.Encrypt / xaesgcm.Encrypt panics *)
+Theorem C02_aesgcm_xaesgcm_encrypt_panic_witness_refuted :
+  forall (aes : bytes -> bytes -> bytes) (seal : aead_seal), (forall k b, length (aes k b) = 16%nat) ->
+    exists p, lenN p = 2 ^ 36 - 31 /\
+      (forall prefix key iv ad, aesgcm_enc seal prefix key iv p ad = Panic) /\
+      (forall key saltiv ad, length saltiv = 24%nat -> xaes_enc aes seal 12 [] key saltiv p ad = Panic).
+Proof.
+  intros aes seal HA. exists (zeros (N.to_nat (2 ^ 36 - 31))).
+  assert (Hl : lenN (zeros (N.to_nat (2 ^ 36 - 31))) = 2 ^ 36 - 31).
+  { unfold lenN. rewrite zeros_length. apply Nnat.N2Nat.id. }
+  split; [exact Hl|]. split.
+  - intros. unfold aesgcm_enc. apply (na_enc_panic_iff seal (fun _ _ _ _ => None)).
+    rewrite Hl, gcm_tink_max_val, gcm_seal_max_val. lia.
+  - intros key saltiv ad Hs. apply (xaes_enc_panic_iff aes seal (fun _ _ _ _ => None) HA); [exact Hs|].
+    rewrite Hl, gcm_seal_max_val. unfold xaes_tink_max, MaxInt, lenN. cbn [length]. lia.
+Qed.
+Print Assumptions C02_aesgcm_xaesgcm_encrypt_panic_witness_refuted.
 
 (* the envelope Decrypt never panics when its component AEADs do not *)
 Theorem C02_envelope_never_panics :
